@@ -274,12 +274,32 @@ static void mode_c08(const Args &a) {
     }
 }
 
+
+// ------------------------------------------------------------------------------------------------
+// oracle dump: generated graph + Horton+Gauss answer, for cross-validation against networkx (thorough tier of C02)
+// ------------------------------------------------------------------------------------------------
+static void mode_oracle(const Args &a) {
+    int max_n = (int) a.geti("max_n", 26);
+    for (uint64_t i = a.from; i < a.to; i++) {
+        Rng r(case_seed(a.seed, "C02", i));
+        bool use_int = r.chance(0.35);
+        GenOpts o; o.max_n = max_n; o.int_only = use_int; o.tie_bias = 0.6; o.allow_degenerate = true;
+        GraphSpec s = gen_graph(r, o);
+        CaseOut co(i);
+        OracleResult orc = horton_oracle(s);
+        co.hash = canon_hash(s); co.nontrivial = orc.dim >= 2;
+        co.sample = J().raw("graph", spec_json(s, 100000)).num("dim", orc.dim).num("opt_units", orc.opt).raw("weights_units", jnums(orc.weights)).done();
+        co.end();
+    }
+}
+
 int main(int argc, char **argv) {
     Args a(argc, argv);
     if (a.mode == "c01") mode_c0102(a, false);
     else if (a.mode == "c02") mode_c0102(a, true);
     else if (a.mode == "c09") mode_c09(a);
     else if (a.mode == "c08") mode_c08(a);
+    else if (a.mode == "oracle") mode_oracle(a);
     else { fprintf(stderr, "unknown mode\n"); return 2; }
     return 0;
 }
